@@ -102,16 +102,24 @@ def main(chk):
   def loss_aux(g, x):
     return loss(g, x), x + 1.0
 
+  grad_calls = [0]
+
   def replay_grad(case):
     cfg = case['cfg']
     key = f"C08:grad:wrt={cfg['wrt']}:argx={cfg['argx']}:aux={cfg['aux']}:value_and_grad={cfg['vag']}:x={cfg['x']}"
     g = G()
     x = jnp.asarray(float(cfg['x']))
     filt = {'P': nnx.Param, 'Q': Q, 'PQ': nnx.Any(nnx.Param, Q), 'default': None}[cfg['wrt']]
+    # rendering: argument positions counted from the end (valid for jax.grad): the module is argument -2, x is -1
+    grad_calls[0] += 1
+    neg = grad_calls[0] % 2 == 0
+    i0, i1 = (-2, -1) if neg else (0, 1)
+    if neg:
+      key += ':negative-argnums'
     if filt is None:
-      argnums = (0, 1) if cfg['argx'] else 0
+      argnums = (i0, i1) if cfg['argx'] else i0
     else:
-      argnums = (nnx.DiffState(0, filt), 1) if cfg['argx'] else nnx.DiffState(0, filt)
+      argnums = (nnx.DiffState(i0, filt), i1) if cfg['argx'] else nnx.DiffState(i0, filt)
     fn = loss_aux if cfg['aux'] else loss
     tr = nnx.value_and_grad if cfg['vag'] else nnx.grad
     try:
